@@ -325,6 +325,8 @@ type TxSpec struct {
 	Desc     string            `json:"desc,omitempty"`
 	DescLen  int               `json:"desclen,omitempty"`  // bulky transaction: desc = DescLen filler bytes
 	Coinbase bool              `json:"coinbase,omitempty"` // adversarial: coinbase flag on a submitted transaction
+	Marked   bool              `json:"marked,omitempty"`   // adversarial: ModifyBlock{Marked} set (metadata outside id and signatures)
+	Autogen  bool              `json:"autogen,omitempty"`  // adversarial: autogen flag on a submitted transaction
 	Method   string            `json:"method,omitempty"`   // with Args: call Contract.Method(Args) instead of $verif.Run(Prog)
 	Args     map[string]string `json:"args,omitempty"`
 }
@@ -463,7 +465,10 @@ func BuildTx(spec *TxSpec, pre *PreExecResult) *pb.Transaction {
 		v = 3
 	}
 	tx := &pb.Transaction{Version: v, Nonce: fmt.Sprintf("n%d", spec.Seq), Timestamp: int64(spec.Seq), Initiator: k.Address,
-		AuthRequire: []string{k.Address}, Desc: descOf(spec), Coinbase: spec.Coinbase}
+		AuthRequire: []string{k.Address}, Desc: descOf(spec), Coinbase: spec.Coinbase, Autogen: spec.Autogen}
+	if spec.Marked {
+		tx.ModifyBlock = &pb.ModifyBlock{Marked: true, EffectiveTxid: "00"}
+	}
 	for _, r := range spec.Ins {
 		id, _ := hex.DecodeString(r.Txid)
 		a, _ := new(big.Int).SetString(r.Amount, 10)
